@@ -6,6 +6,7 @@ sys.path.insert(0, os.path.dirname(os.path.abspath(__file__)))
 MODULES = {
     'C11': 'p_enc', 'C12': 'p_enc', 'C15': 'p_enc',
     'C01': 'p_art', 'C02': 'p_art', 'C10': 'p_art',
+    'C07': 'p_lock',
 }
 
 
